@@ -165,7 +165,9 @@ impl SubCheck for Big {
     fn strategy(&self, tier: Tier) -> BoxedStrategy<BigCase> {
         let max_n = tier.pick(9000u32, 60000u32);
         (any::<u64>(), 1600u32..max_n, 0u32..3, exhaustive_strat(), prop_oneof![Just(1usize), Just(2usize), Just(4usize), Just(8usize), Just(16usize)])
-            .prop_map(|(seed, n, deg, strat, threads)| BigCase { seed, n, deg, strat, threads })
+            // (a DFS visitor rebuilds each path by re-executing the model from the initial state, and DFS
+            // paths in these graphs are thousands of states long: cost grows with n^2)
+            .prop_map(|(seed, n, deg, strat, threads)| BigCase { seed, n: if strat == Strat::Dfs { n.min(20000) } else { n }, deg, strat, threads })
             .boxed()
     }
     fn check(&self, c: &BigCase, cov: &mut Cov) -> Result<(), Fail> {
